@@ -722,3 +722,93 @@ Proof.
 Qed.
 
 End ComposeFinder.
+
+(* ===== the legacy first-character loop of findFirstCharDefault (Code.FcPrefix), both directions ===== *)
+Section ComposeFirstChars.
+Variable e : env.
+Variable fuel : nat.
+Variable root : node.
+Variable bumpq : Z -> Z.
+Variable rtl : bool.
+
+Local Notation exec := (bp_exec e fuel root bumpq).
+Local Notation n := (tlen e).
+
+Hypothesis Hshape : shape_ok rtl root = true.
+Hypothesis Hnoci : no_ci_lit root = true.
+Hypothesis Hfuel : forall x, 0 <= x <= n -> exists r, attempt e fuel root x = Ok r.
+Hypothesis H3 : sc_H3 st n rtl exec.
+
+Variable cat_in : Z -> Z -> bool.
+Variable sets : list cls.
+Hypothesis Hgood : forallb cls_good_b sets = true.
+Hypothesis Hagree : forall id x, set_in e id x = char_in cat_in (set_cls sets id) x.
+Hypothesis Hvalid : forall i, 0 <= char_at e i <= 1114111.
+Hypothesis Hlits : lits_ok root = true.
+
+(* FcPrefix = (PrefixSet, CaseInsensitive) as getFirstCharsPrefix computes it; the runner tests a rune with
+   [fd_fc_test set_in' fc] (the singleton fast path, else CharIn of PrefixSet): all that is needed of it is that
+   it accepts every rune the class accepts *)
+Lemma cf_fc_fact : forall (to_lower : Z -> Z) (C : cls) (ci : bool) (test : Z -> bool),
+  first_chars_prefix cat_in to_lower sets root = Ok (Some (C, ci)) ->
+  (forall x, char_in cat_in C x = true -> test x = true) ->
+  fd_fc_fact st (txt e) exec rtl test.
+Proof.
+  intros to_lower C ci test Hfc Htie q Hq Hs.
+  destruct (fc_succeeds_attempt e fuel root bumpq q Hs) as [s' Hat].
+  destruct (a2_first_chars_prefix_sound cat_in sets (sets_good_b cat_in sets Hgood) e Hagree Hvalid to_lower rtl fuel
+              root q s' C ci Hshape Hnoci Hlits Hq Hfc Hat) as (_ & Hpos & Hin).
+  destruct rtl.
+  - split; [lia|]. apply Htie. exact Hin.
+  - split; [unfold tlen in Hpos; lia|]. apply Htie. exact Hin.
+Qed.
+
+Theorem cf_mode_first_chars_sound :
+  forall (to_lower : Z -> Z) (C : cls) (ci : bool) (set_in' : Z -> Z -> bool) (fc : fdfc) (o : option fdopts),
+  first_chars_prefix cat_in to_lower sets root = Ok (Some (C, ci)) ->
+  (forall x, char_in cat_in C x = true -> fd_fc_test set_in' fc x = true) ->
+  (forall o', o = Some o' -> fd_should_use_optimized o' = false) ->
+  forall start prevlen, 0 <= start <= n ->
+  exists r, find e fuel root rtl start prevlen = Ok r /\
+            scan n rtl (min_len root)
+                 (fd_total (fd_find_first_char_default (txt e) set_in' (lower e) rtl 0 (tstart e) None None o (Some fc)))
+                 exec start prevlen = Ok r.
+Proof.
+  intros to_lower C ci set_in' fc o Hfc Htie Hno start prevlen Hs.
+  pose proof (cf_fc_fact to_lower C ci (fd_fc_test set_in' fc) Hfc Htie) as Hfact.
+  assert (Hnobm : sc_H1_true st (zlen (txt e)) rtl (fd_total (fd_ffc_nobm (txt e) set_in' (lower e) rtl o (Some fc))) exec /\
+                  sc_H1_false st (zlen (txt e)) rtl (fd_total (fd_ffc_nobm (txt e) set_in' (lower e) rtl o (Some fc))) exec).
+  { apply fd_ffc_nobm_H1.
+    - intros o' Ho Hsu. rewrite (Hno o' Ho) in Hsu. discriminate Hsu.
+    - intros _ f0 Hf0. injection Hf0 as <-. exact Hfact. }
+  destruct (fd_default_H1 st (txt e) exec set_in' (lower e) rtl 0 (tstart e) None None o (Some fc)) as [A1 A2].
+  - intros Hb. vm_compute in Hb. discriminate Hb.
+  - intros Hb. vm_compute in Hb. discriminate Hb.
+  - intros Hb. vm_compute in Hb. discriminate Hb.
+  - intros Hb. vm_compute in Hb. discriminate Hb.
+  - intros im Him. discriminate Him.
+  - intros sc Hsc. discriminate Hsc.
+  - intros _. exact Hnobm.
+  - destruct (sc_scan_finder_sound st n rtl (min_len root) _ exec A1 A2
+                (fc_min_len_H2 e fuel root bumpq rtl Hshape) H3 start prevlen Hs) as (r & Hr1 & Hr2).
+    exists r. split; [|exact Hr1].
+    rewrite (bp_find_naive_scan e fuel root rtl bumpq start prevlen Hfuel Hs). exact Hr2.
+Qed.
+
+(* the canonical reading of the record: no singleton fast path, set id 0 answered by CharIn of PrefixSet *)
+Corollary cf_mode_first_chars_sound_canonical :
+  forall (to_lower : Z -> Z) (C : cls) (ci : bool),
+  first_chars_prefix cat_in to_lower sets root = Ok (Some (C, ci)) ->
+  forall start prevlen, 0 <= start <= n ->
+  exists r, find e fuel root rtl start prevlen = Ok r /\
+            scan n rtl (min_len root)
+                 (fd_total (fd_find_first_char_default (txt e) (fun _ x => char_in cat_in C x) (lower e) rtl 0 (tstart e)
+                              None None None (Some {| fc_singleton := None; fc_set := 0 |})))
+                 exec start prevlen = Ok r.
+Proof.
+  intros to_lower C ci Hfc. apply (cf_mode_first_chars_sound to_lower C ci); [exact Hfc| |].
+  - intros x Hx. exact Hx.
+  - intros o' Ho. discriminate Ho.
+Qed.
+
+End ComposeFirstChars.
